@@ -139,4 +139,17 @@ PROPS = {
                       "only empty documents changes the remembered field count (corner outside this property; noted in DESIGN.md).",
         "assumptions": ["batch size >= 1"],
     },
+    "C14": {
+        "streams": ["events"],
+        "rule": "events: random event sequences (1-12 events; ids zero/non-zero/extreme; counters and timers from boundary values incl. MinInt64/MaxInt64 and random "
+                "64-bit values; nil events; the pointer of an earlier event re-used after being refilled) through the cumulative, n-sampling (n = 1..7) and pass-through "
+                "collectors over a snapshotting collector that forwards to a real batch collector; marshal/unmarshal round trips. Oracle: value-semantics running totals, "
+                "decoded FTDC output = persisted samples. Distinct = distinct case line.",
+        "level_text": "Theorems (Props/C14.lean) for every event list: cumulative_kth (the k-th written sample is the specification's totals of events 1..k: sums of counters and "
+                      "timers, last time stamp/gauges, id rule), nil refused, pass-through exact, sampling totals always accumulate and index i is written iff n | i, "
+                      "perf_roundtrip (unmarshal (marshal p) = p, marshal/unmarshal modelled key by key).",
+        "level_note": "Events are values in the model; that the Go collectors do not alias the caller's struct is what the re-used-pointer cases of the stream check (finding F18, "
+                      "fixed). Random-sampling and interval collectors depend on math/rand and the wall clock and are outside the property. Decoding through FTDC is C01.",
+        "assumptions": ["time stamps at millisecond precision"],
+    },
 }
